@@ -21,6 +21,8 @@ pub mod c13;
 pub mod c14;
 pub mod c15;
 pub mod c16;
+pub mod c17;
+pub mod c18;
 
 pub struct Prop {
     pub id: &'static str,
@@ -55,6 +57,8 @@ pub fn lookup(id: &str) -> Option<Prop> {
         "C14" => Prop { id: "C14", run: c14::run, rule: c14::rule, exhaustive: none, assumptions: no_assumptions },
         "C15" => Prop { id: "C15", run: c15::run, rule: c15::rule, exhaustive: none, assumptions: no_assumptions },
         "C16" => Prop { id: "C16", run: c16::run, rule: c16::rule, exhaustive: none, assumptions: no_assumptions },
+        "C17" => Prop { id: "C17", run: c17::run, rule: c17::rule, exhaustive: none, assumptions: no_assumptions },
+        "C18" => Prop { id: "C18", run: c18::run, rule: c18::rule, exhaustive: none, assumptions: no_assumptions },
         _ => return None,
     })
 }
@@ -74,6 +78,12 @@ pub fn replay(_id: &str, case: &Value) -> Option<Result<(), String>> {
         return Some(r);
     }
     if let Some(r) = c16::replay(case) {
+        return Some(r);
+    }
+    if let Some(r) = c17::replay(case) {
+        return Some(r);
+    }
+    if let Some(r) = c18::replay(case) {
         return Some(r);
     }
     if let Some(r) = c12::replay(case) {
